@@ -604,6 +604,13 @@ func runSchedule(sc Scenario, choices []int) result {
 		if n == 0 {
 			// quiescent and the script is finished (or its next call can never start)
 			_ = waits
+			if r.rest != "" {
+				// the peer does not stop in the middle of a stanza: its remainder arrives
+				r.feedRest()
+				r.progress++
+				step--
+				continue
+			}
 			stage++
 			r.progress++
 			r.ending = true
